@@ -1,24 +1,234 @@
-"""C38 - non-contact force elements follow their documented laws (thin wrapper; extended by the coordinator).
-Currently runs the force-caching class invariant part (checks/part_c38_cache.py)."""
-import os
+"""C38 - Non-contact force elements follow their documented laws.
+Part B (route M3): calcForce/calcPotentialEnergy of the built-in elements, transliterated each run
+and executed against a symbolic world; Part A: force-caching class invariant (part_c38_cache)."""
+import os, re, json, z3, importlib
 from vlib import *
 from extract import *
-import part_c38_cache
+import symlib as S
+from symlib import *
+import forcelib as FL
 
 PID = "C38"
 META = dict(
-    category="other",
-    text=("CBMC contracts: class invariant of every ForceImpl subclass (enumerated from the sources each run): "
-          "dependsOnlyOnPositions() implies every state variable allocated in realizeTopology()/realizeModel() invalidates a "
-          "stage <= Stage::Position, so that parameter changes of cached elements take effect at the next realization."),
-    note="Assumed: State allocation API contract, GeneralForceSubsystem cache reset at Position (C18 lemma), user Custom implementations.",
-    technique="CBMC function contracts (dfcc) on control slices cut from the real realizeTopology()/realizeModel() bodies",
-    design_ref="4 C16 / C38")
+    category="proof",
+    text=("Documented force laws proved for all real states/parameters on the transliterated calcForce/calcPotentialEnergy of TwoPointLinearSpring, "
+          "TwoPointLinearDamper, TwoPointConstantForce, ConstantForce, ConstantTorque, MobilityLinearSpring/Damper/ConstantForce/LinearStop (piecewise law, "
+          "every region), UniformGravity and Gravity (incl. immune bodies), with the matter API replaced by its kinematic contract; plus the class invariant "
+          "'an element whose force is cached until Position is invalidated keeps its parameters in variables that invalidate Position or earlier' on every "
+          "ForceImpl subclass (CBMC contracts), which is what makes parameter changes take effect at the next realization for cached elements."),
+    note=("Assumes real arithmetic and the mocked matter/State API contracts listed in the evidence; trusts z3/cvc5, CBMC, transliterator/extractor rules. "
+          "LinearBushing, Thermostat, DiscreteForces, Custom, CableSpring and enable/exclusion flags are not covered."),
+    technique="symbolic execution of transliterated real code over the reals + SMT (z3 QF_NRA); CBMC contracts for the caching class invariant",
+    design_ref="4 C16/C38")
 
 
-def main(ctx):
-    ctx.level = "other"
-    rep = part_c38_cache.run(ctx)
-    ctx.trust("cbmc/goto-cc/goto-instrument 6.11.0 (C front end), MiniSat")
-    ctx.explanation = "Force-caching class invariant proved per ForceImpl subclass (unbounded; loop-free slices)."
-    return ctx.finish(replayer=rep)
+def main(ctx, only_b=False):
+    ctx.level = "proof"
+    try:
+        B, C = FL.build(ctx, want=("springs", "mobility", "gravity"))
+    except ExtractionError as e:
+        ctx.undecide("extraction: %s" % e)
+        return ctx.finish()
+    laws(ctx, B, C)
+    replayers = []
+    if not only_b:
+        try:
+            part = importlib.import_module("part_c38_cache")
+            r = part.run(ctx)
+            if r:
+                replayers.append(r)
+        except ImportError:
+            ctx.not_decided.append("force-caching class invariant (part_c38_cache module not present)")
+        except ExtractionError as e:
+            ctx.undecide("extraction (cache invariant): %s" % e)
+    ctx.checker_cmds.append("z3 (python API, QF_NRA); SMT-LIB files in out/C38/smt2")
+    ctx.trust("z3 4.x / cvc5 1.0 (QF_NRA)"); ctx.trust("tools/translit.py rule table (logged) and tools/symlib.py shim")
+    ctx.assume("machine arithmetic treated as mathematical (reals)")
+    for a in FL.world_assumptions():
+        ctx.assume(a)
+    ctx.not_decided += ["LinearBushing (Euler-angle inference), Thermostat, DiscreteForces, MobilityDiscreteForce, Custom, CableSpring",
+                        "enable/disable flags and Gravity exclusion changes between realizations (only the parameter-variable stage invariant is checked)"]
+    ctx.explanation = "%d functions under contract; %d obligations." % (len(ctx.functions), len(ctx.obligations))
+    def rp(ob):
+        for r in replayers:
+            if ob.unit.startswith("forcecache"):
+                return r(ob)
+        return replay(ctx, ob)
+    return ctx.finish(replayer=rp)
+
+
+def plain(x):
+    return S.vmap(lambda e: D(val(e)), x)
+
+
+def laws(ctx, B, C):
+    W = FL.World(3)
+    side = list(W.side)
+    st = object()
+    U = "forcelaw"
+    b1, b2 = W.bodies[1], W.bodies[2]
+    s1 = Vec(*[z3.Real("s1_%d" % i) for i in range(3)]); s2 = Vec(*[z3.Real("s2_%d" % i) for i in range(3)])
+    R1, R2, p1o, p2o = plain(b1.R), plain(b2.R), plain(b1.p), plain(b2.p)
+    a1, a2 = R1 * s1, R2 * s2                       # station vectors in G
+    P1, P2 = p1o + a1, p2o + a2
+    r = P2 - P1
+    # ---- TwoPointLinearSpring ----
+    S.reset_env()
+    k, x0 = z3.Reals("k x0")
+    e = C["TwoPointLinearSpring"](); e.matter, e.body1, e.body2, e.station1, e.station2, e.k, e.x0 = W, 1, 2, s1, s2, D(k), D(x0)
+    bf, pf, mf = W.fresh_forces()
+    e.calcForce(st, bf, pf, mf)
+    sd = side + list(S.ENV.side)
+    d = r.norm(); sd = side + list(S.ENV.side) + [val(d) > 0]
+    f1 = (D(k) * (d - D(x0)) / d) * r                # k (length - rest length) along the line, pulling 1 toward 2
+    B.prove_eq("TwoPointLinearSpring: force on body1 == k(d-x0) * unit(p2-p1)", plain(bf[1][1]), f1, sd, U, "TwoPointLinearSpring::calcForce")
+    B.prove_eq("TwoPointLinearSpring: torque on body1 == station1_G x f", plain(bf[1][0]), cross(a1, f1), sd, U, "TwoPointLinearSpring::calcForce")
+    B.prove_eq("TwoPointLinearSpring: force on body2 == -force on body1", plain(bf[2][1]), -f1, sd, U, "TwoPointLinearSpring::calcForce")
+    B.prove_eq("TwoPointLinearSpring: torque on body2 == -station2_G x f", plain(bf[2][0]), -cross(a2, f1), sd, U, "TwoPointLinearSpring::calcForce")
+    B.prove_eq("TwoPointLinearSpring: ground untouched", plain(bf[0][1]), Vec(0, 0, 0), sd, U, "TwoPointLinearSpring::calcForce")
+    pe = e.calcPotentialEnergy(st)
+    sd2 = side + list(S.ENV.side)
+    B.prove_eq("TwoPointLinearSpring: PE == k (d-x0)^2 / 2", D(val(pe)), D(k) * (d - D(x0)) * (d - D(x0)) / 2, sd2 + [val(d) > 0], U, "TwoPointLinearSpring::calcPotentialEnergy")
+    # ---- TwoPointLinearDamper ----
+    S.reset_env()
+    c = z3.Real("c")
+    e = C["TwoPointLinearDamper"](); e.matter, e.body1, e.body2, e.station1, e.station2, e.damping = W, 1, 2, s1, s2, D(c)
+    bf, pf, mf = W.fresh_forces(); e.calcForce(st, bf, pf, mf)
+    d = r.norm(); sd = side + list(S.ENV.side) + [val(d) > 0]
+    u = r / d
+    vrel = (b2.v + cross(b2.w, a2)) - (b1.v + cross(b1.w, a1))
+    fd = (D(c) * dot(vrel, u)) * u
+    B.prove_eq("TwoPointLinearDamper: force on body1 == c (vrel.u) u", plain(bf[1][1]), fd, sd, U, "TwoPointLinearDamper::calcForce")
+    B.prove_eq("TwoPointLinearDamper: force on body2 opposite", plain(bf[2][1]), -fd, sd, U, "TwoPointLinearDamper::calcForce")
+    B.prove_eq("TwoPointLinearDamper: torque on body1 == station1_G x (its force)", plain(bf[1][0]), cross(a1, plain(bf[1][1])), sd, U, "TwoPointLinearDamper::calcForce")
+    B.prove_eq("TwoPointLinearDamper: torque on body2 == station2_G x (its force)", plain(bf[2][0]), cross(a2, plain(bf[2][1])), sd, U, "TwoPointLinearDamper::calcForce")
+    B.prove_eq("TwoPointLinearDamper: PE == 0", D(val(D.lift(e.calcPotentialEnergy(st)))), 0, sd, U, "TwoPointLinearDamper::calcPotentialEnergy")
+    # ---- TwoPointConstantForce ----
+    S.reset_env()
+    F0 = z3.Real("F0")
+    e = C["TwoPointConstantForce"](); e.matter, e.body1, e.body2, e.station1, e.station2, e.force = W, 1, 2, s1, s2, D(F0)
+    bf, pf, mf = W.fresh_forces(); e.calcForce(st, bf, pf, mf)
+    d = r.norm(); sd = side + list(S.ENV.side) + [val(d) > 0]
+    f2 = (D(F0) / d) * r                              # positive force separates the points
+    B.prove_eq("TwoPointConstantForce: force on body2 == F u (separating)", plain(bf[2][1]), f2, sd, U, "TwoPointConstantForce::calcForce")
+    B.prove_eq("TwoPointConstantForce: force on body1 == -F u", plain(bf[1][1]), -f2, sd, U, "TwoPointConstantForce::calcForce")
+    B.prove_eq("TwoPointConstantForce: torque on body1 == station1_G x (its force)", plain(bf[1][0]), cross(a1, plain(bf[1][1])), sd, U, "TwoPointConstantForce::calcForce")
+    B.prove_eq("TwoPointConstantForce: torque on body2 == station2_G x (its force)", plain(bf[2][0]), cross(a2, plain(bf[2][1])), sd, U, "TwoPointConstantForce::calcForce")
+    # ---- ConstantForce / ConstantTorque ----
+    S.reset_env()
+    fv = Vec(*[z3.Real("cf%d" % i) for i in range(3)])
+    e = C["ConstantForce"](); e.matter, e.body, e.station, e.force = W, 1, s1, fv
+    bf, pf, mf = W.fresh_forces(); e.calcForce(st, bf, pf, mf)
+    B.prove_eq("ConstantForce: (station_G x f, f) on its body", plain(bf[1]), S.SpatialVec(cross(a1, fv), fv), side, U, "ConstantForce::calcForce")
+    B.prove_eq("ConstantForce: other body untouched", plain(bf[2]), S.SpatialVec(Vec(0, 0, 0), Vec(0, 0, 0)), side, U, "ConstantForce::calcForce")
+    e = C["ConstantTorque"](); e.matter, e.body, e.torque = W, 2, fv
+    bf, pf, mf = W.fresh_forces(); e.calcForce(st, bf, pf, mf)
+    B.prove_eq("ConstantTorque: (t, 0) on its body", plain(bf[2]), S.SpatialVec(fv, Vec(0, 0, 0)), side, U, "ConstantTorque::calcForce")
+    # ---- mobility elements ----
+    S.reset_env()
+    kq, q0, cq, fq = z3.Reals("kq q0 cq fq")
+    class Pair: pass
+    e = C["MobilityLinearSpring"](); e.m_matter, e.m_mobodIx, e.m_whichQ = W, 1, 0
+    pr = Pair(); pr.first, pr.second = D(kq), D(q0); e.getParams = lambda s_: pr
+    bf, pf, mf = W.fresh_forces(); e.calcForce(st, bf, pf, mf)
+    q, qd = b1._coord(0)
+    B.prove_eq("MobilityLinearSpring: f == -k (q - q0)", D(val(mf.f[(1, 0)])), -D(kq) * (D(val(q)) - D(q0)), [], U, "MobilityLinearSpring::calcForce")
+    B.prove_eq("MobilityLinearSpring: PE == k (q-q0)^2 / 2", D(val(e.calcPotentialEnergy(st))), D(kq) * (D(val(q)) - D(q0)) * (D(val(q)) - D(q0)) / 2, [], U, "MobilityLinearSpring::calcPotentialEnergy")
+    B.prove_bool("MobilityLinearSpring: exactly one mobility touched", z3.BoolVal(len(mf.f) == 1), [], U, "MobilityLinearSpring::calcForce")
+    e = C["MobilityLinearDamper"](); e.m_matter, e.m_mobodIx, e.m_whichU = W, 1, 0; e.getDamping = lambda s_: D(cq)
+    bf, pf, mf = W.fresh_forces(); e.calcForce(st, bf, pf, mf)
+    B.prove_eq("MobilityLinearDamper: f == -c u", D(val(mf.f[(1, 0)])), -D(cq) * D(val(qd)), [], U, "MobilityLinearDamper::calcForce")
+    e = C["MobilityConstantForce"](); e.m_matter, e.m_mobodIx, e.m_whichU = W, 1, 0; e.getForce = lambda s_: D(fq)
+    bf, pf, mf = W.fresh_forces(); e.calcForce(st, bf, pf, mf)
+    B.prove_eq("MobilityConstantForce: f == force", D(val(mf.f[(1, 0)])), D(fq), [], U, "MobilityConstantForce::calcForce")
+    # ---- MobilityLinearStop: piecewise law, every region ----
+    ks, ds, qlo, qhi = z3.Reals("ks ds qlo qhi")
+    class Par: pass
+    par = Par(); par.k, par.d, par.qLow, par.qHigh = D(ks), D(ds), D(qlo), D(qhi)
+    e = C["MobilityLinearStop"](); e.m_matter, e.m_mobodIx, e.m_whichQ = W, 1, 0; e.getParameters = lambda s_: par
+    qv, qdv = val(q), val(qd)
+    base = [qlo <= qhi, ks >= 0, ds >= 0]
+    seen = set()
+    def runf():
+        bf, pf, mf = W.fresh_forces(); e.calcForce(st, bf, pf, mf); return mf
+    for path, script, mf in B.run_paths(runf, 4):
+        key = tuple(str(x) for x in path)
+        if key in seen: continue
+        seen.add(key)
+        for region, rc in (("above qHigh", [qv > qhi]), ("below qLow", [qv < qlo]), ("inside", [qv >= qlo, qv <= qhi])):
+            for kz, kc in (("k>0", [ks > 0]), ("k==0", [ks == 0])):
+                cond = base + rc + kc + path
+                s_ = z3.Solver(); s_.add(*cond)
+                if s_.check() != z3.sat: continue
+                got = mf.f.get((1, 0), D(0))
+                x_hi, x_lo = qv - qhi, qv - qlo
+                if kz == "k==0" or region == "inside":
+                    want = z3.RealVal(0)
+                elif region == "above qHigh":
+                    raw = -(ks * x_hi * (1 + ds * qdv)); want = z3.If(raw < 0, raw, 0)
+                else:
+                    raw = -(ks * x_lo * (1 - ds * qdv)); want = z3.If(raw > 0, raw, 0)
+                B.prove_eq("MobilityLinearStop %s, %s: documented piecewise force" % (region, kz), D(val(got)), D(want), cond, U, "MobilityLinearStop::calcForce")
+    seen = set()
+    for path, script, pe in B.run_paths(lambda: e.calcPotentialEnergy(st), 3):
+        key = tuple(str(x) for x in path)
+        if key in seen: continue
+        seen.add(key)
+        for region, rc, x in (("above qHigh", [qv > qhi], qv - qhi), ("below qLow", [qv < qlo], qv - qlo), ("inside", [qv >= qlo, qv <= qhi], z3.RealVal(0))):
+            cond = base + rc + path
+            s_ = z3.Solver(); s_.add(*cond)
+            if s_.check() != z3.sat: continue
+            B.prove_eq("MobilityLinearStop %s: PE == k x^2 / 2" % region, D(val(D.lift(pe))), D(ks * x * x / 2), cond, U, "MobilityLinearStop::calcPotentialEnergy")
+    # ---- UniformGravity ----
+    S.reset_env()
+    g = Vec(*[z3.Real("g%d" % i) for i in range(3)]); zh = z3.Real("zh")
+    e = C["UniformGravity"](); e.matter, e.g, e.zeroHeight = W, g, D(zh)
+    bf, pf, mf = W.fresh_forces(); e.calcForce(st, bf, pf, mf)
+    tot_pe = D(0)
+    for b in (b1, b2):
+        Rp = plain(b.R); cG = Rp * b.com
+        B.prove_eq("UniformGravity: body %d gets (com_G x m g, m g)" % b.ix, plain(bf[b.ix]), S.SpatialVec(cross(cG, b.mass * g), b.mass * g), side, U, "UniformGravity::calcForce")
+        tot_pe = tot_pe - b.mass * (dot(g, plain(b.p) + cG) + D(zh))
+    B.prove_eq("UniformGravity: nothing applied to Ground", plain(bf[0]), S.SpatialVec(Vec(0, 0, 0), Vec(0, 0, 0)), side, U, "UniformGravity::calcForce")
+    B.prove_eq("UniformGravity: PE == -sum m (g.com_G + zeroHeight)", D(val(e.calcPotentialEnergy(st))), tot_pe, side, U, "UniformGravity::calcPotentialEnergy")
+    # ---- Gravity (magnitude g, direction d, zero height z, immune bodies) ----
+    for immune in ([False, False, False], [False, True, False], [False, False, True]):
+        S.reset_env()
+        gm, zz = z3.Reals("gm zz"); dv = Vec(*[z3.Real("d%d" % i) for i in range(3)])
+        class P: pass
+        p_ = P(); p_.g, p_.d, p_.z, p_.mobodIsImmune = D(gm), dv, D(zz), immune
+        class FC: pass
+        fc = FC(); fc.pe = D(0); fc.F_GB = [S.SpatialVec(Vec(0, 0, 0), Vec(0, 0, 0)) for _ in W.bodies]; fc.f_GP = []
+        e = C["Gravity"](); e.matter, e.numEvaluations = W, 0
+        e.isForceCacheValid = lambda s_: False; e.getParameters = lambda s_: p_; e.markForceCacheValid = lambda s_: None; e.updForceCache = lambda s_: fc
+        for path, script, _ in B.run_paths(lambda: e.ensureForceCacheValid(st), 1):
+            cond = side + path
+            s_ = z3.Solver(); s_.add(*cond)
+            if s_.check() != z3.sat: continue
+            tag = "immune=%s, %s" % ("".join("1" if x else "0" for x in immune), "g==0" if any("==" in str(c_) and "Not" not in str(c_) for c_ in path) else "g!=0")
+            pe_or = D(0)
+            for b in (b1, b2):
+                Rp = plain(b.R); cG = Rp * b.com
+                if immune[b.ix] or "g==0" in tag:
+                    wantF = S.SpatialVec(Vec(0, 0, 0), Vec(0, 0, 0))
+                else:
+                    grav = D(gm) * dv
+                    wantF = S.SpatialVec(cross(cG, b.mass * grav), b.mass * grav)
+                    pe_or = pe_or - b.mass * (dot(grav, plain(b.p) + cG) + D(gm) * D(zz))
+                B.prove_eq("Gravity (%s): body %d force == m g d at mass centre (0 if immune)" % (tag, b.ix), plain(fc.F_GB[b.ix]), wantF, cond, U, "Gravity::ensureForceCacheValid")
+            B.prove_eq("Gravity (%s): PE == -sum m (g d . com_G + g z)" % tag, D(val(fc.pe)), pe_or, cond, U, "Gravity::ensureForceCacheValid")
+            fc.pe = D(0); fc.F_GB = [S.SpatialVec(Vec(0, 0, 0), Vec(0, 0, 0)) for _ in W.bodies]
+    s_ = z3.Solver(); s_.add(*side)
+    ctx.add(Obligation("guard:world side conditions satisfiable", "guards", "z3", "discharged" if s_.check() == z3.sat else "undecided", 0, "reachability guard"))
+
+
+_EXE = {}
+
+
+def replay(ctx, ob):
+    if "exe" not in _EXE:
+        src = os.path.join(REPO, "Simbody/src")
+        _EXE["exe"] = native_build(ctx, "c38_replay", os.path.join(VERIF, "replay/c38_replay.cpp"), libs=True,
+                                   extra_srcs=[os.path.join(src, "Force.cpp"), os.path.join(src, "Force_Gravity.cpp")], extra_inc=[src])
+    rc, o, e, t = run([_EXE["exe"], str(ctx.seed)], 300)
+    return dict(cmd="c38_replay %d (random states on the real elements against the documented formulas)" % ctx.seed, output=o[-3000:]), "REPRODUCED:" in o
